@@ -50,7 +50,7 @@ theorem mem_keys_iff (n : Nat) (p q : HashParts) (v : MW) (hn : 1 ≤ n) (hp : V
 
 /-! ## the shared vertices, direction by direction (12 base cells × zones of the shifted coordinates) -/
 
-local macro "lab_tac" n:ident b:ident I:term:max J:term:max q:ident hb:ident P:term : tactic =>
+local macro "lab_tac" n:ident b:ident I:term:max J:term:max hb:ident P:term : tactic =>
   `(tactic| (
     intro h
     revert h
@@ -77,51 +77,136 @@ set_option linter.unusedSimpArgs false
 set_option maxHeartbeats 1000000 in
 theorem lab_S : nbAt n b ((i : Int) + (-1)) ((j : Int) + (-1)) = some q →
     InQ n b i j q S ∧ ¬ InQ n b i j q E ∧ ¬ InQ n b i j q N ∧ ¬ InQ n b i j q W := by
-  lab_tac n b ((i : Int) + (-1)) ((j : Int) + (-1)) q hb
+  lab_tac n b ((i : Int) + (-1)) ((j : Int) + (-1)) hb
     (fun b => nbZ n b _ _ _ _ = some q → InQ n b i j q S ∧ ¬ InQ n b i j q E ∧ ¬ InQ n b i j q N ∧ ¬ InQ n b i j q W)
 
 set_option maxHeartbeats 1000000 in
 theorem lab_SE : nbAt n b ((i : Int) + (0)) ((j : Int) + (-1)) = some q →
     InQ n b i j q S ∧ InQ n b i j q E ∧ ¬ InQ n b i j q N ∧ ¬ InQ n b i j q W := by
-  lab_tac n b ((i : Int) + (0)) ((j : Int) + (-1)) q hb
+  lab_tac n b ((i : Int) + (0)) ((j : Int) + (-1)) hb
     (fun b => nbZ n b _ _ _ _ = some q → InQ n b i j q S ∧ InQ n b i j q E ∧ ¬ InQ n b i j q N ∧ ¬ InQ n b i j q W)
 
 set_option maxHeartbeats 1000000 in
 theorem lab_E : nbAt n b ((i : Int) + (1)) ((j : Int) + (-1)) = some q →
     ¬ InQ n b i j q S ∧ InQ n b i j q E ∧ ¬ InQ n b i j q N ∧ ¬ InQ n b i j q W := by
-  lab_tac n b ((i : Int) + (1)) ((j : Int) + (-1)) q hb
+  lab_tac n b ((i : Int) + (1)) ((j : Int) + (-1)) hb
     (fun b => nbZ n b _ _ _ _ = some q → ¬ InQ n b i j q S ∧ InQ n b i j q E ∧ ¬ InQ n b i j q N ∧ ¬ InQ n b i j q W)
 
 set_option maxHeartbeats 1000000 in
 theorem lab_SW : nbAt n b ((i : Int) + (-1)) ((j : Int) + (0)) = some q →
     InQ n b i j q S ∧ ¬ InQ n b i j q E ∧ ¬ InQ n b i j q N ∧ InQ n b i j q W := by
-  lab_tac n b ((i : Int) + (-1)) ((j : Int) + (0)) q hb
+  lab_tac n b ((i : Int) + (-1)) ((j : Int) + (0)) hb
     (fun b => nbZ n b _ _ _ _ = some q → InQ n b i j q S ∧ ¬ InQ n b i j q E ∧ ¬ InQ n b i j q N ∧ InQ n b i j q W)
 
 set_option maxHeartbeats 1000000 in
 theorem lab_NE : nbAt n b ((i : Int) + (1)) ((j : Int) + (0)) = some q →
     ¬ InQ n b i j q S ∧ InQ n b i j q E ∧ InQ n b i j q N ∧ ¬ InQ n b i j q W := by
-  lab_tac n b ((i : Int) + (1)) ((j : Int) + (0)) q hb
+  lab_tac n b ((i : Int) + (1)) ((j : Int) + (0)) hb
     (fun b => nbZ n b _ _ _ _ = some q → ¬ InQ n b i j q S ∧ InQ n b i j q E ∧ InQ n b i j q N ∧ ¬ InQ n b i j q W)
 
 set_option maxHeartbeats 1000000 in
 theorem lab_W : nbAt n b ((i : Int) + (-1)) ((j : Int) + (1)) = some q →
     ¬ InQ n b i j q S ∧ ¬ InQ n b i j q E ∧ ¬ InQ n b i j q N ∧ InQ n b i j q W := by
-  lab_tac n b ((i : Int) + (-1)) ((j : Int) + (1)) q hb
+  lab_tac n b ((i : Int) + (-1)) ((j : Int) + (1)) hb
     (fun b => nbZ n b _ _ _ _ = some q → ¬ InQ n b i j q S ∧ ¬ InQ n b i j q E ∧ ¬ InQ n b i j q N ∧ InQ n b i j q W)
 
 set_option maxHeartbeats 1000000 in
 theorem lab_NW : nbAt n b ((i : Int) + (0)) ((j : Int) + (1)) = some q →
     ¬ InQ n b i j q S ∧ ¬ InQ n b i j q E ∧ InQ n b i j q N ∧ InQ n b i j q W := by
-  lab_tac n b ((i : Int) + (0)) ((j : Int) + (1)) q hb
+  lab_tac n b ((i : Int) + (0)) ((j : Int) + (1)) hb
     (fun b => nbZ n b _ _ _ _ = some q → ¬ InQ n b i j q S ∧ ¬ InQ n b i j q E ∧ InQ n b i j q N ∧ InQ n b i j q W)
 
 set_option maxHeartbeats 1000000 in
 theorem lab_N : nbAt n b ((i : Int) + (1)) ((j : Int) + (1)) = some q →
     ¬ InQ n b i j q S ∧ ¬ InQ n b i j q E ∧ InQ n b i j q N ∧ ¬ InQ n b i j q W := by
-  lab_tac n b ((i : Int) + (1)) ((j : Int) + (1)) q hb
+  lab_tac n b ((i : Int) + (1)) ((j : Int) + (1)) hb
     (fun b => nbZ n b _ _ _ _ = some q → ¬ InQ n b i j q S ∧ ¬ InQ n b i j q E ∧ InQ n b i j q N ∧ ¬ InQ n b i j q W)
 
 end
+
+/-- the vertices of `(b, i, j)` that are vertices of its neighbour in direction `dir` are those of the side / corner
+    `dir` -/
+theorem nb_InQ (n b i j : Nat) (dir : MW) (q : HashParts) (hn : 1 ≤ n) (hn2 : n ≤ 4294967296) (hb : b < 12)
+    (hi : i < n) (hj : j < n) (hdir : dir ≠ C)
+    (h : nbAt n b ((i : Int) + dir.offsetSe) ((j : Int) + dir.offsetSw) = some q) :
+    ∀ v ∈ cardinals, (InQ n b i j q v ↔ v ∈ edgeOf dir) := by
+  cases dir
+  case C => exact absurd rfl hdir
+  case S =>
+    obtain ⟨h1, h2, h3, h4⟩ := lab_S n b i j q hn hn2 hb hi hj h
+    simp [cardinals, edgeOf, h1, h2, h3, h4]
+  case SE =>
+    obtain ⟨h1, h2, h3, h4⟩ := lab_SE n b i j q hn hn2 hb hi hj h
+    simp [cardinals, edgeOf, h1, h2, h3, h4]
+  case E =>
+    obtain ⟨h1, h2, h3, h4⟩ := lab_E n b i j q hn hn2 hb hi hj h
+    simp [cardinals, edgeOf, h1, h2, h3, h4]
+  case SW =>
+    obtain ⟨h1, h2, h3, h4⟩ := lab_SW n b i j q hn hn2 hb hi hj h
+    simp [cardinals, edgeOf, h1, h2, h3, h4]
+  case NE =>
+    obtain ⟨h1, h2, h3, h4⟩ := lab_NE n b i j q hn hn2 hb hi hj h
+    simp [cardinals, edgeOf, h1, h2, h3, h4]
+  case W =>
+    obtain ⟨h1, h2, h3, h4⟩ := lab_W n b i j q hn hn2 hb hi hj h
+    simp [cardinals, edgeOf, h1, h2, h3, h4]
+  case NW =>
+    obtain ⟨h1, h2, h3, h4⟩ := lab_NW n b i j q hn hn2 hb hi hj h
+    simp [cardinals, edgeOf, h1, h2, h3, h4]
+  case N =>
+    obtain ⟨h1, h2, h3, h4⟩ := lab_N n b i j q hn hn2 hb hi hj h
+    simp [cardinals, edgeOf, h1, h2, h3, h4]
+
+/-- direction `C` is the cell itself -/
+theorem neighbourParts_C (n : Nat) (p : HashParts) (hp : Valid n p) : neighbourParts n p C = some p := by
+  obtain ⟨hb, hi, hj⟩ := hp
+  show nbZ n p.d0h (zone n ((p.i : Int) + 0)) (zone n ((p.j : Int) + 0)) ((p.i : Int) + 0) ((p.j : Int) + 0) = some p
+  rcases zone_cases n ((p.i : Int) + 0) with ⟨h1, hz⟩ | ⟨h1, h2, hz⟩ | ⟨h1, h2, hz⟩ <;>
+  rcases zone_cases n ((p.j : Int) + 0) with ⟨h3, hz'⟩ | ⟨h3, h4, hz'⟩ | ⟨h3, h4, hz'⟩ <;>
+  (try omega)
+  rw [hz, hz']
+  simp [nbZ, ofOffsets, ofIndex]
+
+theorem filter_edgeOf (dir : MW) : cardinals.filter (fun v => decide (v ∈ edgeOf dir)) = edgeOf dir := by
+  cases dir <;> decide
+
+theorem edgeOf_injective {d1 d2 : MW} (h : edgeOf d1 = edgeOf d2) : d1 = d2 := by
+  cases d1 <;> cases d2 <;> first | rfl | exact absurd h (by decide)
+
+/-- **C04, `neighbour_labelled`**: the cell returned for direction `dir` shares with `p` exactly the vertices of the
+    side `dir` of `p` (two vertices, `dir` ordinal), exactly the corner `dir` of `p` (one vertex, `dir` cardinal); for
+    `dir = C` it is `p` itself (four vertices).  Holds for every `n ≥ 1`, including `n = 1` (depth 0). -/
+theorem neighbour_labelled (n : Nat) (p q : HashParts) (dir : MW) (hn : 1 ≤ n) (hn2 : n ≤ 4294967296)
+    (hp : Valid n p) (h : neighbourParts n p dir = some q) : shared n p q = edgeOf dir := by
+  have hq := neighbourParts_valid n p q dir hn hn2 hp h
+  by_cases hdir : dir = C
+  · subst hdir
+    rw [neighbourParts_C n p hp] at h
+    cases h
+    unfold shared
+    rw [List.filter_eq_self.2]
+    · rfl
+    · intro v hv
+      exact decide_eq_true (List.mem_map_of_mem hv)
+  · rw [← filter_edgeOf dir]
+    unfold shared
+    apply List.filter_congr
+    intro v hv
+    rw [neighbourParts_eq_nbAt] at h
+    have := nb_InQ n p.d0h p.i p.j dir q hn hn2 hp.1 hp.2.1 hp.2.2 hdir h v hv
+    rw [decide_eq_decide, mem_keys_iff n p q v hn hp hq hv]
+    exact this
+
+/-- **C04, `neighbours_distinct`**: two different directions (the centre included) never give the same cell; in
+    particular the (up to 8) neighbours are pairwise distinct.  Holds for every `n ≥ 1`. -/
+theorem neighbours_distinct (n : Nat) (p q : HashParts) (d1 d2 : MW) (hn : 1 ≤ n) (hn2 : n ≤ 4294967296)
+    (hp : Valid n p) (h1 : neighbourParts n p d1 = some q) (h2 : neighbourParts n p d2 = some q) : d1 = d2 :=
+  edgeOf_injective ((neighbour_labelled n p q d1 hn hn2 hp h1).symm.trans (neighbour_labelled n p q d2 hn hn2 hp h2))
+
+/-- a neighbour (direction other than `C`) is never the cell itself.  Holds for every `n ≥ 1`. -/
+theorem neighbour_ne_self (n : Nat) (p q : HashParts) (dir : MW) (hn : 1 ≤ n) (hn2 : n ≤ 4294967296)
+    (hp : Valid n p) (hdir : dir ≠ C) (h : neighbourParts n p dir = some q) : q ≠ p := by
+  rintro rfl
+  exact hdir (neighbours_distinct n q q dir C hn hn2 hp h (neighbourParts_C n q hp))
 
 end Hpx.TopoNeigh
